@@ -569,13 +569,32 @@ pub fn guarded_formula(cfg: &FolCfg) -> BoxedStrategy<fol::Formula> {
             // with an inner integer variable, where the inner block may re-bind the outer variable
             let gv = cfg2.gvars.clone();
             let iv = cfg2.ivars.clone();
+            let preds_for_family = cfg2.preds.clone();
             let domain_shape = (
                 (select(gv), select(iv), any::<bool>(), any::<bool>()),
                 (any::<bool>(), any::<bool>(), any::<bool>(), 0u8..6),
                 inner.clone(),
                 inner.clone(),
             )
-                .prop_map(|((z, i, forall, flip), (rebind, extra_outer, left, conn_choice), rest, other)| {
+                .prop_map(move |((z, i, forall, flip), (rebind, extra_outer, left, conn_choice), rest, other)| {
+                    // every other time the names form a family: outer general Z, inner integer Z1, and an
+                    // integer variable Z free in the other operand - every name a fresh-name search that
+                    // starts from Z or Z1 walks past
+                    let family = rest.to_string().len() % 2 == 0;
+                    let i = if family { format!("{z}1") } else { i };
+                    let other = if family {
+                        let unary = preds_for_family.iter().find(|p| p.1 == 1).map(|p| p.0.clone()).unwrap_or_else(|| "p".to_string());
+                        bin(
+                            fol::BinaryConnective::Conjunction,
+                            other,
+                            fol::Formula::AtomicFormula(fol::AtomicFormula::Atom(fol::Atom {
+                                predicate_symbol: unary,
+                                terms: vec![fol::GeneralTerm::IntegerTerm(fol::IntegerTerm::Variable(z.clone()))],
+                            })),
+                        )
+                    } else {
+                        other
+                    };
                     let zv = fol::Variable { name: z.clone(), sort: fol::Sort::General };
                     let ivar = fol::Variable { name: i.clone(), sort: fol::Sort::Integer };
                     let eq = if flip {
@@ -622,12 +641,51 @@ pub fn guarded_formula(cfg: &FolCfg) -> BoxedStrategy<fol::Formula> {
                     let second = if k & 2 != 0 { bin(arrow(k & 4 != 0), f, g) } else { bin(arrow(k & 4 != 0), g, f) };
                     bin(if k & 8 != 0 && k & 7 == 7 { fol::BinaryConnective::Disjunction } else { fol::BinaryConnective::Conjunction }, first, second)
                 });
+            // the shape the transitive-equality rewrite looks for: two variables of one block equated with
+            // the same term, `exists X Y (X = t and Y = t and F)`; the equalities are written either way
+            // round, and one of them may go on as a chain (`Y = t <= u`), which says more than an equality
+            let cfg4 = cfg2.clone();
+            let transitive_shape = (
+                (variable(&cfg2), variable(&cfg2), gen_term(&cfg2), gen_term(&cfg2)),
+                (any::<bool>(), 0u8..8, 0u8..4, select(vec![fol::Relation::LessEqual, fol::Relation::Less, fol::Relation::NotEqual, fol::Relation::Equal, fol::Relation::GreaterEqual])),
+                inner.clone(),
+            )
+                .prop_map(move |((v1, mut v2, t, u), (forall, flips, chained, rel), body)| {
+                    if v2 == v1 {
+                        v2 = fol::Variable { name: format!("{}9", v1.name), sort: v1.sort };
+                    }
+                    // an integer variable is equated with a general variable half of the time (the shape of
+                    // the translations), so that neither variable can simply be substituted away
+                    let t = if v1.sort == fol::Sort::Integer && flips & 4 != 0 && !cfg4.gvars.is_empty() {
+                        fol::GeneralTerm::Variable(cfg4.gvars[0].clone())
+                    } else {
+                        t
+                    };
+                    let eq = |v: &fol::Variable, flip: bool, chain: bool| {
+                        let mut guards = vec![(fol::Relation::Equal, if flip { gterm_of(v) } else { t.clone() })];
+                        if chain {
+                            guards.push((rel, u.clone()));
+                        }
+                        cmp(if flip { t.clone() } else { gterm_of(v) }, guards)
+                    };
+                    let first = eq(&v1, flips & 1 != 0, chained == 1);
+                    let second = eq(&v2, flips & 2 != 0, chained == 2);
+                    let parts = vec![first, second];
+                    if forall {
+                        quant(true, vec![v1, v2], bin(fol::BinaryConnective::Implication, conj_all(parts, true), body))
+                    } else {
+                        let mut parts = parts;
+                        parts.push(body);
+                        quant(false, vec![v1, v2], conj_all(parts, flips & 4 == 0))
+                    }
+                });
             prop_oneof![
                 2 => inner.clone().prop_map(not),
                 5 => (connective(), inner.clone(), inner.clone()).prop_map(|(c, l, r)| bin(c, l, r)),
                 4 => guarded,
-                1 => domain_shape,
+                2 => domain_shape,
                 1 => equivalence_shape,
+                1 => transitive_shape,
                 1 => (any::<bool>(), vec(variable(&cfg2), 1..=2), inner)
                     .prop_map(|(fa, vs, f)| quant(fa, vs, f)),
             ]
